@@ -6,12 +6,12 @@ import os
 from .engine import Exec
 
 USER_HOOKS = ["pre-commit", "prepare-commit-msg", "commit-msg", "post-commit", "post-checkout", "post-merge",
-              "post-rewrite", "pre-rebase", "post-applypatch", "pre-merge-commit", "pre-push"]
+              "post-rewrite", "pre-rebase", "post-applypatch", "pre-merge-commit", "pre-push", "reference-transaction"]
 
 HOOK_SCRIPT = """#!/bin/sh
 # user hook stub: records that it ran (and its arguments) outside the work tree
 printf '%s %s\\n' "{name}" "$*" >> "$HOOKS_LOG"
-if [ "{name}" = "post-rewrite" ]; then cat >> "$HOOKS_LOG"; fi
+if [ "{name}" = "post-rewrite" ] || [ "{name}" = "reference-transaction" ]; then cat >> "$HOOKS_LOG"; fi
 exit 0
 """
 
